@@ -53,7 +53,7 @@ theorem eval_call_proc (f : Nat) (xc : X.Ctx) (g : String) (args : List X.Expr) 
 theorem exec_callExpr {G : GCtx} (ok : G.OK) (fuel : Nat) (hcs : ∀ k, k < fuel → CallSpec G k)
     {pi : PInfo} (hpi : pi ∈ G.procs) (sp dep : Nat) (hi : Nat → Word) (hlo : G.lo ≤ sp) (hspv : sp + G.S pi + pi.po + pi.p.formals.length ≤ G.spv + 1)
     (hstack : G.spv ≤ sp + dep * G.smax) (g : String) (args : List X.Expr) (hg : g ∈ G.pnames)
-    (hp : ∀ e ∈ args, pureE e = true) (σ : X.St)
+    (hA : ∀ f, f < fuel → ArgsOK G pi sp dep hi f args) (σ : X.St)
     (gs : GS) (code : Code) (gs' : GS) (i : Nat) (a b : Word) (mem : Mem)
     (hgen : genExpr (G.ctxOf pi) (optExpr (annotate G.rho (.call g args))) .A gs = .ok (code, gs'))
     (hat : At G.env.ds i (lowerCode G.cg code)) (hr : Rep (KOf G pi sp dep hi) σ mem)
@@ -84,7 +84,7 @@ theorem exec_callExpr {G : GCtx} (ok : G.OK) (fuel : Nat) (hcs : ∀ k, k < fuel
         · rw [if_neg ho]
           cases hev : X.evalArgs f G.xc args st with
           | undef w => simp only [Res.bind]
-          | exit c s => exact absurd hev (evalArgs_pure_no_exit G.xc args f st c s hp)
+          | exit c s => exact absurd hev ((hA f (Nat.lt_succ_self _)).noexit st mem c s hrs)
           | ok vs s =>
             simp only [Res.bind]
             cases hcu : X.callUser f G.xc pj.p vs s with
@@ -110,8 +110,8 @@ theorem exec_callExpr {G : GCtx} (ok : G.OK) (fuel : Nat) (hcs : ∀ k, k < fuel
                 rw [hf, hname]
                 rfl
               rw [hkk] at hseq
-              have := exec_usercall ok f (hcs f (Nat.lt_succ_self _)) hpi hpj sp dep hi hlo hspv hstack args f st s vs hp hev
-                gs code gs' i a b mem hseq hat hrs hsz hnl hci
+              have := (hA f (Nat.lt_succ_self _)).call (hcs f (Nat.lt_succ_self _)) pj hpj st s vs
+                gs code gs' i a b mem hev hseq hat hrs hsz hnl hci
               rw [hcu] at this
               obtain ⟨c, hst, hex⟩ := this
               rw [hs.2.2.2.1] at hst
@@ -141,8 +141,8 @@ theorem exec_callExpr {G : GCtx} (ok : G.OK) (fuel : Nat) (hcs : ∀ k, k < fuel
                   rw [hf, hname]
                   rfl
                 rw [hkk] at hseq
-                have := exec_usercall ok f (hcs f (Nat.lt_succ_self _)) hpi hpj sp dep hi hlo hspv hstack args f st s vs hp hev
-                  gs code gs' i a b mem hseq hat hrs hsz hnl hci
+                have := (hA f (Nat.lt_succ_self _)).call (hcs f (Nat.lt_succ_self _)) pj hpj st s vs
+                  gs code gs' i a b mem hev hseq hat hrs hsz hnl hci
                 rw [hcu] at this
                 obtain ⟨a', b', mem', hst, rep', hres', _⟩ := this
                 have := hres' hf w rfl
@@ -168,11 +168,6 @@ def ExecE (K : PCtx) (e' : AExpr) (st : X.St) (r : Res Val) : Prop :=
     OutE K (cfg i a b mem) st.io r (i + (K.low code).length)
 
 /-! ### Calls of pure functions in operands -/
-
-theorem noLoc_of_rep {G : GCtx} {pi : PInfo} {sp dep : Nat} {hi : Nat → Word} {σ : X.St} {mem : Mem}
-    (rep : Rep (KOf G pi sp dep hi) σ mem) : NoLoc G.pnames σ := by
-  intro g hg
-  exact rep.gvis g (List.mem_append_right _ (by simpa using hg))
 
 /-- The call of a pure function, as an operand: the state it leaves differs from the one before
     in the step counter and the call log only. -/
@@ -437,7 +432,7 @@ theorem exec_call_func (f : Nat) (xc : X.Ctx) (g : String) (args : List X.Expr) 
 theorem execS_callStmt {G : GCtx} (ok : G.OK) (fuel : Nat) (hcs : ∀ k, k < fuel → CallSpec G k)
     {pi : PInfo} (hpi : pi ∈ G.procs) (sp dep : Nat) (hi : Nat → Word) (hlo : G.lo ≤ sp) (hspv : sp + G.S pi + pi.po + pi.p.formals.length ≤ G.spv + 1)
     (hstack : G.spv ≤ sp + dep * G.smax) (g : String) (args : List X.Expr) (hg : g ∈ G.pnames)
-    (hp : ∀ e ∈ args, pureE e = true) (σ : X.St) :
+    (hA : ∀ f, f < fuel → ArgsOK G pi sp dep hi f args) (σ : X.St) :
     ExecS (KOf G pi sp dep hi) (G.iEpi pi) (optStmt (annotS G.rho (.call g args))) σ
       (X.exec fuel G.xc (.call g args) σ) := by
   intro gs code gs' i a b mem hgen hat hr hsz hnl hci
@@ -468,7 +463,7 @@ theorem execS_callStmt {G : GCtx} (ok : G.OK) (fuel : Nat) (hcs : ∀ k, k < fue
         · rw [if_neg ho]
           cases hev : X.evalArgs f G.xc args st with
           | undef w => simp only [Res.bind]; trivial
-          | exit c s => exact absurd hev (evalArgs_pure_no_exit G.xc args f st c s hp)
+          | exit c s => exact absurd hev ((hA f (Nat.lt_succ_self _)).noexit st mem c s hrs)
           | ok vs s =>
             simp only [Res.bind]
             have hkk : CallKind.proc g = pj.callKind := by
@@ -480,20 +475,34 @@ theorem execS_callStmt {G : GCtx} (ok : G.OK) (fuel : Nat) (hcs : ∀ k, k < fue
             | undef w => trivial
             | exit cd s' =>
               simp only
-              have := exec_usercall ok f (hcs f (Nat.lt_succ_self _)) hpi hpj sp dep hi hlo hspv hstack args f st s vs hp hev
-                gs code gs' i a b mem hgen hat hrs hsz hnl hci
+              have := (hA f (Nat.lt_succ_self _)).call (hcs f (Nat.lt_succ_self _)) pj hpj st s vs
+                gs code gs' i a b mem hev hgen hat hrs hsz hnl hci
               rw [hcu] at this
               obtain ⟨c, hst, hex⟩ := this
               rw [hs.2.2.2.1] at hst
               exact ⟨c, hst, hex⟩
             | ok r s' =>
               simp only
-              have := exec_usercall ok f (hcs f (Nat.lt_succ_self _)) hpi hpj sp dep hi hlo hspv hstack args f st s vs hp hev
-                gs code gs' i a b mem hgen hat hrs hsz hnl hci
+              have := (hA f (Nat.lt_succ_self _)).call (hcs f (Nat.lt_succ_self _)) pj hpj st s vs
+                gs code gs' i a b mem hev hgen hat hrs hsz hnl hci
               rw [hcu] at this
               obtain ⟨a', b', mem', hst, rep', _, _⟩ := this
               rw [hs.2.2.2.1] at hst
               exact ⟨a', b', mem', hst, rep'⟩
+
+/-- The actuals of a call of the class, at every fuel below `F`. -/
+theorem argsOK_5 {G : GCtx} (ok : G.OK) {pi : PInfo} (hpi : pi ∈ G.procs) (sp dep : Nat)
+    (hi : Nat → Word) (hlo : G.lo ≤ sp) (hspv : sp + G.S pi + pi.po + pi.p.formals.length ≤ G.spv + 1)
+    (hstack : G.spv ≤ sp + dep * G.smax) (F : Nat) (hcs : ∀ k, k < F → CallSpec G k)
+    (args : List X.Expr) (h : argsOk5 G.pk G.pnames G.xc.impure args = true) :
+    ∀ f, f < F → ArgsOK G pi sp dep hi f args := by
+  intro f hf
+  simp only [argsOk5, Bool.or_eq_true, Bool.and_eq_true, List.all_eq_true] at h
+  rcases h with hp | ⟨hpk, hpp⟩
+  · exact argsOK_pure ok hpi sp dep hi hlo hspv hstack f args hp
+  · exact argsOK_pp ok hpi sp dep hi hlo hspv hstack (ok.pure_ok hpk) f
+      (fun k hk => callLeaf_of_spec ok (ok.pure_ok hpk) hpi sp dep hi hlo hspv hstack k (fun j hj => hcs j (by omega)))
+      args hpp
 
 /-! ### The induction -/
 
@@ -505,6 +514,12 @@ def StmtLSpec (G : GCtx) (fuel : Nat) : Prop :=
 theorem callE_inv (ps : List String) (e : X.Expr) (h : callE ps e = true) :
     ∃ g args, e = .call g args ∧ g ∈ ps ∧ ∀ a ∈ args, pureE a = true := by
   cases e <;> simp [callE] at h
+  rename_i g args
+  exact ⟨g, args, rfl, h.1, h.2⟩
+
+theorem callE5_inv (pk : Bool) (ps imp : List String) (e : X.Expr) (h : callE5 pk ps imp e = true) :
+    ∃ g args, e = .call g args ∧ g ∈ ps ∧ argsOk5 pk ps imp args = true := by
+  cases e <;> simp [callE5] at h
   rename_i g args
   exact ⟨g, args, rfl, h.1, h.2⟩
 
@@ -547,10 +562,11 @@ theorem all_correct {G : GCtx} (ok : G.OK) : ∀ fuel, StmtSpec G fuel ∧ StmtL
             intro st _
             exact execE_pp ok (ok.pure_ok hpk) hpi sp dep hi hlo hspv hstack F hcsF e hpp st
           · exact execS_ret (KOf G pi sp dep hi) _ wf _ e σ hpure
-          · obtain ⟨g, args, rfl, hg, hargs⟩ := callE_inv _ _ hcall
+          · obtain ⟨g, args, rfl, hg, hargs⟩ := callE5_inv _ _ _ _ hcall
             apply execS_retE (KOf G pi sp dep hi) _ wf F (.call g args) _ σ
             intro st _ gs code gs' i a b mem hgen hat hr hsz hnl hci
-            exact exec_callExpr ok F hcsF hpi sp dep hi hlo hspv hstack g args hg hargs st gs code gs' i a b mem
+            exact exec_callExpr ok F hcsF hpi sp dep hi hlo hspv hstack g args hg
+              (argsOK_5 ok hpi sp dep hi hlo hspv hstack F hcsF args hargs) st gs code gs' i a b mem
               hgen hat hr hsz hnl hci
         | assign n e =>
           simp only [okS5, rhs5, Bool.or_eq_true, Bool.and_eq_true] at hok
@@ -563,10 +579,11 @@ theorem all_correct {G : GCtx} (ok : G.OK) : ∀ fuel, StmtSpec G fuel ∧ StmtL
             intro st _
             exact execE_pp ok (ok.pure_ok hpk) hpi sp dep hi hlo hspv hstack F hcsF e hpp st
           · exact execS_assign (KOf G pi sp dep hi) _ wf _ n e σ hpure
-          · obtain ⟨g, args, rfl, hg, hargs⟩ := callE_inv _ _ hcall
+          · obtain ⟨g, args, rfl, hg, hargs⟩ := callE5_inv _ _ _ _ hcall
             apply execS_assignE (KOf G pi sp dep hi) _ wf F n (.call g args) _ σ
             intro st _ gs code gs' i a b mem hgen hat hr hsz hnl hci
-            exact exec_callExpr ok F hcsF hpi sp dep hi hlo hspv hstack g args hg hargs st gs code gs' i a b mem
+            exact exec_callExpr ok F hcsF hpi sp dep hi hlo hspv hstack g args hg
+              (argsOK_5 ok hpi sp dep hi hlo hspv hstack F hcsF args hargs) st gs code gs' i a b mem
               hgen hat hr hsz hnl hci
         | ite c t e =>
           simp only [okS5, Bool.and_eq_true] at hok
@@ -599,15 +616,16 @@ theorem all_correct {G : GCtx} (ok : G.OK) : ∀ fuel, StmtSpec G fuel ∧ StmtL
           exact execS_assignSub (KOf G pi sp dep hi) _ wf _ n i e σ hok.1 hok.2
         | call g args =>
           simp only [okS5, Bool.and_eq_true, List.all_eq_true, Bool.or_eq_true, List.contains_iff_mem] at hok
-          rcases hok.1 with hps | hvs
-          · exact execS_callStmt ok (F + 1) hcsF1 hpi sp dep hi hlo hspv hstack g args hps hok.2 σ
+          rcases hok with ⟨hps, hargs⟩ | ⟨hvs, hargs⟩
+          · exact execS_callStmt ok (F + 1) hcsF1 hpi sp dep hi hlo hspv hstack g args hps
+              (argsOK_5 ok hpi sp dep hi hlo hspv hstack (F + 1) hcsF1 args hargs) σ
           · unfold valSys at hvs
             cases hr : G.rho g with
             | none => rw [hr] at hvs; simp at hvs
             | some w =>
               rw [hr] at hvs
               simp only [decide_eq_true_eq] at hvs
-              exact execS_valcall (KOf G pi sp dep hi) _ wf _ g args σ w hr hvs hok.2
+              exact execS_valcall (KOf G pi sp dep hi) _ wf _ g args σ w hr hvs hargs
       · intro pi hpi sp dep hi hlo hspv hstack ss σ hok
         have ihS' := ihS pi hpi sp dep hi hlo hspv hstack
         have ihL' := ihL pi hpi sp dep hi hlo hspv hstack
